@@ -9,6 +9,7 @@ import time
 from pathlib import Path
 
 VERIF = Path("/verif")
+RUN = Path(os.environ.get("VERIF_SNAPSHOT", "/verif"))    # frozen copy of /verif the checks are run from
 
 
 def sh(cmd, cwd, timeout=1800, env=None):
@@ -44,7 +45,7 @@ def main():
         env = dict(os.environ, VERIF_REPO=str(wt), VERIF_KEEP_WORK="1")
         for c in checks:
             t0 = time.time()
-            rc, o = sh(f"./check {c} --tier quick", VERIF, timeout=3600, env=env)
+            rc, o = sh(f"./check {c} --tier quick", RUN, timeout=3600, env=env)
             lines = [l for l in o.splitlines() if l.startswith(("VIOLATION", "  clause", "OK", "KNOWN", "MACHINERY"))]
             results[c] = {"exit": rc, "wall_s": round(time.time() - t0), "first_lines": [l[:260] for l in lines[:6]]}
             out["ran"].append(f"VERIF_REPO={wt} ./check {c} --tier quick -> exit {rc}")
